@@ -28,7 +28,24 @@ theorem ringInitBuffer_ne_fuel (rb : Ring) (n : Nat) : ringInitBuffer rb n ≠ .
   split_all h
   all_goals simp at h
 
-theorem ringWrite_ne_fuel (rb : Ring) (n a : Nat) : ringWrite rb n a ≠ .fuel := by
+theorem ringGrow_ne_fuel (rb : Ring) : ringGrow rb ≠ .fuel := by
+  intro h
+  unfold ringGrow at h
+  split_all h
+  all_goals first
+    | (simp at h; done)
+    | (rename_i hq; exact absurd hq (ringInitBuffer_ne_fuel _ _))
+    | (rename_i hq _; exact absurd hq (ringInitBuffer_ne_fuel _ _))
+    | (exact absurd h (ringInitBuffer_ne_fuel _ _))
+
+theorem ringWriteMain_ne_fuel (rb : Ring) (bs : Bytes) (a : Nat) : ringWriteMain rb bs a ≠ .fuel := by
+  intro h
+  unfold ringWriteMain at h
+  simp only at h
+  split_all h
+  all_goals simp at h
+
+theorem ringWrite_ne_fuel (rb : Ring) (bs : Bytes) (a : Nat) : ringWrite rb bs a ≠ .fuel := by
   intro h
   unfold ringWrite at h
   simp only at h
@@ -38,6 +55,10 @@ theorem ringWrite_ne_fuel (rb : Ring) (n a : Nat) : ringWrite rb n a ≠ .fuel :
     | (rename_i hq; exact absurd hq (ringInitBuffer_ne_fuel _ _))
     | (rename_i hq _; exact absurd hq (ringInitBuffer_ne_fuel _ _))
     | (exact absurd h (ringInitBuffer_ne_fuel _ _))
+    | (exact absurd h (ringWriteMain_ne_fuel _ _ _))
+    | (rename_i hq; exact absurd hq (ringGrow_ne_fuel _))
+    | (rename_i hq _; exact absurd hq (ringGrow_ne_fuel _))
+    | (exact absurd h (ringGrow_ne_fuel _))
 
 theorem copy_ne_fuel (s : St) (c : Bytes) (a : Nat) : copyInputToRingBuffer s c a ≠ .fuel := by
   intro h
